@@ -112,6 +112,16 @@ def build_pool(ctx, scratch):
             pool.append(('refused-wide-%d' % len(pool), msg.bytes, None))
         except Exception:
             pass
+    # an undefined descriptor in section 3 is refused (when the template is built, walked or compiled) - by a coder that has
+    # just handled other templates and by one that has just refused this very message
+    for ids, pos in (([1001, 1002], 1), ([1001, 12001, 101002, 4024], 0), ([301011, 12001], 1)):
+        try:
+            B, D = R.load_tables(0, 0, 0, 33, 0)
+            msg = R.build_message(ids, B, D, R.Policy(rng), 1, False, 4, dict(master_table_version=33, update_sequence_number=len(pool)))
+            from mon.gen import streams as _streams
+            pool.append(('refused-undefined-%d' % len(pool), _streams.fault_descriptor(msg.bytes, pos, pos == 0, len(pool)), None))
+        except Exception:
+            pass
     # every shard covers all versions across its histories: messages over many versions
     for v in versions:
         if len(pool) >= n * 2 // 3:
@@ -282,13 +292,17 @@ def run_history(ctx, pool, gold, limit, hno, alts):
                 ctx.count('refused_message_steps')
                 ctx.count('history_steps')
                 ctx.evaluated((hno, ctx.shard, step, 'refused', name), True)
-                try:
-                    decs[dn].process(b)
-                    ctx.violate('history-dependence/refused-message-decodes/after-%s' % prev,
-                                'step %d: %s is refused (%s) by a new interpreter but decodes after history %s'
-                                % (step, name, g['refused'], hist[-8:]), dict(history=hist, step=step, message=name, op='decode'))
-                except Exception:
-                    pass
+                # (twice in a row on the same decoder: the retry of a refused message is refused as well)
+                for attempt in (1, 2):
+                    try:
+                        decs[dn].process(b)
+                        ctx.violate('history-dependence/refused-message-decodes/after-%s' % (prev if attempt == 1 else 'its-own-refusal'),
+                                    'step %d: %s is refused (%s) by a new interpreter but decodes (attempt %d) after history %s'
+                                    % (step, name, g['refused'], attempt, hist[-8:]),
+                                    dict(history=hist, step=step, message=name, op='decode', attempt=attempt))
+                        break
+                    except Exception:
+                        ctx.count('refused_message_attempts')
                 prev = 'failure'
                 prev_msg = None
                 continue
